@@ -208,6 +208,16 @@ func (c *Conn) Push(p []byte) {
 	c.mu.Unlock()
 }
 
+// Drain returns and discards everything pushed by the server but not yet read
+// (for harness-side clients that look at the server's log instead of the replies).
+func (c *Conn) Drain() []byte {
+	c.mu.Lock()
+	defer c.mu.Unlock()
+	b := c.rbuf
+	c.rbuf = nil
+	return b
+}
+
 // Kill ends the connection from the server side. With drop the bytes already pushed
 // but not yet read are discarded (connection reset); otherwise they can still be
 // read before the error (orderly EOF).
